@@ -71,6 +71,7 @@ type c17Lattice struct {
 	Plain    bool `json:"plain"`    // control: the same program without the merge declaration
 	Pad      int  `json:"pad,omitempty"` // extra facts pad(1..Pad) in the program text: they use up part of the limit before the chain's stratum starts
 	Ascend   bool `json:"ascend"`   // the rule raises the value of the SAME key (an ascending chain in the lattice: one stored fact, replaced every round)
+	Descend  bool `json:"descend,omitempty"` // the rule LOWERS the value of the same key: under the merge every derived fact is absorbed by the stored one (fixpoint after one round); without the declaration it is an ordinary chain
 }
 
 type c17 struct{}
@@ -87,7 +88,7 @@ func (c17) Cases(tier string) int {
 func (c17) Describe() core.Info {
 	return core.Info{
 		Level: "exploration",
-		Rule: "typed random programs WITHOUT termination guards (unbounded fn:plus / fn:mult / fn:list:cons through recursion) mixed with terminating ones (a third of them with aggregating rules, whose input relations may be larger than the limit), base facts preloaded, evaluated with WithCreatedFactLimit(L), L in {1,2,5,20,100} (a quarter of the cases add a random subset of the options that have nothing to do with the limit: WithNowMarker, WithTemporalStore, WithEvaluationTime, WithDeterministicOrder), on every writable store kind behind a counting wrapper; every 10th case is a counting chain level(N,D) (guarded to 3..4000 keys or unguarded, one or two rules) on a predicate declared with fundep + merge (facts merged per key through a deferred lattice predicate), or the same chain without the declaration as control: one fresh key per round (or, in a third of them, one key whose value rises every round: an ascending chain in the lattice, a single stored fact replaced again and again), so only a limit on created facts can stop it; 0-3 further facts pad(i) are written in the program and in half of these cases L is exactly (or one more than) the number of facts written in the program, i.e. the budget is used up when the chain's stratum starts; a nil error there requires every level(n,n) up to the guard. Decided on logical steps: the wrapper aborts the run when successful Adds exceed B (or when Add was called more than 8B+200 times, successful or not: a run that keeps offering facts without the store growing does not return) = (rules+3)*(L+1)*(strata+1) (violation: unbounded creation); a nil error requires the store to equal the reference model, which is computed with a bound of (rules+3)*(L+1)+50 derived facts (reference larger => the engine must have returned an error, because its own per-join/per-round/per-store checks cap what an error-free run can create). Non-trivial: program diverges (reference exceeds its bound) or its number of derived facts is within +-3 of L; distinct by (program, L, store).",
+		Rule: "typed random programs WITHOUT termination guards (unbounded fn:plus / fn:mult / fn:list:cons through recursion) mixed with terminating ones (a third of them with aggregating rules, whose input relations may be larger than the limit), base facts preloaded, evaluated with WithCreatedFactLimit(L), L in {1,2,5,20,100} (a quarter of the cases add a random subset of the options that have nothing to do with the limit: WithNowMarker, WithTemporalStore, WithEvaluationTime, WithDeterministicOrder), on every writable store kind behind a counting wrapper; every 10th case is a counting chain level(N,D) (guarded to 3..4000 keys or unguarded, one or two rules) on a predicate declared with fundep + merge (facts merged per key through a deferred lattice predicate), or the same chain without the declaration as control: one fresh key per round (or, in a third of them, one key whose value rises every round: an ascending chain in the lattice, a single stored fact replaced again and again; or, in a quarter, one key whose derived value FALLS every round, so that under the merge every derived fact is absorbed and the evaluation has to stop after one round whatever the limit), so only a limit on created facts can stop it; lookups (GetFacts/Contains) of these chain runs are bounded by 100B+1000, which catches rounds that go on without creating anything; 0-3 further facts pad(i) are written in the program and in half of these cases L is exactly (or one more than) the number of facts written in the program, i.e. the budget is used up when the chain's stratum starts; a nil error there requires every level(n,n) up to the guard. Decided on logical steps: the wrapper aborts the run when successful Adds exceed B (or when Add was called more than 8B+200 times, successful or not: a run that keeps offering facts without the store growing does not return) = (rules+3)*(L+1)*(strata+1) (violation: unbounded creation); a nil error requires the store to equal the reference model, which is computed with a bound of (rules+3)*(L+1)+50 derived facts (reference larger => the engine must have returned an error, because its own per-join/per-round/per-store checks cap what an error-free run can create). Non-trivial: program diverges (reference exceeds its bound) or its number of derived facts is within +-3 of L; distinct by (program, L, store).",
 		Assumptions: []string{"an error on a small terminating program is not judged (the property does not exclude it); it is counted", "B is derived from the per-join, per-round and per-store limit checks of the loop and is deliberately generous"},
 		PerCaseTimeout: 120e9,
 	}
@@ -113,6 +114,9 @@ func (c17) Gen(r *rand.Rand, tier string, i int) any {
 	}
 	if i%10 == 3 {
 		l := &c17Lattice{Chain: []int{0, 3, 10, 30, 150, 1000, 4000}[r.Intn(7)], TwoRules: r.Intn(2) == 0, Plain: r.Intn(5) == 0, Ascend: r.Intn(3) == 0, Pad: r.Intn(4)}
+		if r.Intn(4) == 0 {
+			l.Ascend, l.Descend = false, true
+		}
 		c := c17Case{Limit: []int{1, 2, 5, 20, 100}[r.Intn(5)], Kind: engineStoreKinds[r.Intn(len(engineStoreKinds))], Lattice: l}
 		if r.Intn(2) == 0 {
 			// boundary: the facts written in the program use up the limit exactly (or all but one) before the chain starts
@@ -137,6 +141,30 @@ type countingStore struct {
 	adds   int
 	budget int
 	tries  int // calls of Add, successful or not
+	// lookups counts GetFacts and Contains calls; lookupBudget > 0 bounds them (used for the lattice chains, where the
+	// number of rounds is at most the number of created facts and a round makes a handful of lookups): a run that
+	// keeps reading the store without ever offering it a fact does not return either
+	lookups      int
+	lookupBudget int
+}
+
+type lookupsExceeded struct{ lookups int }
+
+func (c *countingStore) look() {
+	c.lookups++
+	if c.lookupBudget > 0 && c.lookups > c.lookupBudget {
+		panic(lookupsExceeded{c.lookups})
+	}
+}
+
+func (c *countingStore) GetFacts(a ast.Atom, f func(ast.Atom) error) error {
+	c.look()
+	return c.FactStore.GetFacts(a, f)
+}
+
+func (c *countingStore) Contains(a ast.Atom) bool {
+	c.look()
+	return c.FactStore.Contains(a)
 }
 
 type budgetExceeded struct{ adds int }
@@ -183,7 +211,14 @@ func c17LatticeText(l c17Lattice) string {
 		}
 		t = "level(0, 0).\nlevel(N, D) :- level(N, C), " + guard + "D = fn:plus(C, 1).\n"
 	}
-	if l.TwoRules {
+	if l.Descend {
+		guard = ""
+		if l.Chain > 0 {
+			guard = fmt.Sprintf("C > %d, ", -l.Chain)
+		}
+		t = "level(0, 0).\nlevel(N, D) :- level(N, C), " + guard + "D = fn:minus(C, 1).\n"
+	}
+	if l.TwoRules && !l.Descend {
 		t += "level(N, D) :- level(M, C), " + guard + "N = fn:plus(M, 1), D = C.\n"
 	}
 	for i := 1; i <= l.Pad; i++ {
@@ -224,10 +259,11 @@ func c17ExecLattice(c c17Case, res *core.Result) (skip string, fail *evalFail) {
 	}
 	rules := len(unit.Clauses)
 	B := (rules + 3) * (c.Limit + 1) * 4
-	cs := &countingStore{FactStore: newEngineStore(c.Kind, nil), budget: B}
+	cs := &countingStore{FactStore: newEngineStore(c.Kind, nil), budget: B, lookupBudget: 100*B + 1000}
 	var evalErr error
 	exceeded := -1
 	tries := -1
+	looks := -1
 	func() {
 		defer func() {
 			if r := recover(); r != nil {
@@ -237,6 +273,10 @@ func c17ExecLattice(c c17Case, res *core.Result) (skip string, fail *evalFail) {
 				}
 				if te, ok := r.(triesExceeded); ok {
 					tries = te.tries
+					return
+				}
+				if le, ok := r.(lookupsExceeded); ok {
+					looks = le.lookups
 					return
 				}
 				panic(r)
@@ -253,15 +293,24 @@ func c17ExecLattice(c c17Case, res *core.Result) (skip string, fail *evalFail) {
 		}
 		if evalErr != nil {
 			res.Ob("runs_ending_with_error", 1)
-		} else if exceeded < 0 {
+		} else if exceeded < 0 && tries < 0 && looks < 0 {
 			res.Ob("runs_ending_without_error", 1)
 		}
 		d := l.Chain + 1 - c.Limit
 		res.NonTrivial = l.Chain == 0 || l.Chain+1 > c.Limit || (d >= -3 && d <= 3)
+		if l.Descend {
+			res.Ob("lattice_absorbing_chains", 1)
+		}
 	}
 	tag := ":lattice"
 	if l.Plain {
 		tag = ":lattice-control"
+	}
+	if l.Descend {
+		tag += "-descending"
+	}
+	if looks >= 0 {
+		return "", &evalFail{"rounds-not-bounded" + tag, fmt.Sprintf("limit %d, store %s: the evaluation looked into the store %d times (bound %d) after offering it %d facts (%d accepted) and was still running", c.Limit, c.Kind, looks, cs.lookupBudget, cs.tries, cs.adds)}
 	}
 	if tries >= 0 {
 		return "", &evalFail{"add-attempts-not-bounded" + tag, fmt.Sprintf("limit %d, store %s: the evaluation offered %d facts to the store (%d accepted) and was still running", c.Limit, c.Kind, tries, cs.adds)}
@@ -270,6 +319,27 @@ func c17ExecLattice(c c17Case, res *core.Result) (skip string, fail *evalFail) {
 		return "", &evalFail{"creation-not-bounded" + tag, fmt.Sprintf("limit %d, store %s: the evaluation created %d facts, more than the bound B=%d, and was still running", c.Limit, c.Kind, exceeded, B)}
 	}
 	if evalErr != nil {
+		return "", nil
+	}
+	if l.Descend && !l.Plain {
+		// every derived fact is absorbed: the model is the single written fact, whatever the limit
+		levels := 0
+		cs.FactStore.GetFacts(ast.NewQuery(ast.PredicateSym{Symbol: "level", Arity: 2}), func(ast.Atom) error { levels++; return nil })
+		if !cs.Contains(ast.NewAtom("level", ast.Number(0), ast.Number(0))) || levels != 1 {
+			return "", &evalFail{"silent-partial-result" + tag, fmt.Sprintf("limit %d, store %s: evaluation returned nil, level(0,0) stored: %v, level facts stored: %d (expected 1)", c.Limit, c.Kind, cs.Contains(ast.NewAtom("level", ast.Number(0), ast.Number(0))), levels)}
+		}
+		return "", nil
+	}
+	if l.Descend {
+		// control without the declaration: the chain 0, -1, ..., -Chain
+		if l.Chain == 0 {
+			return "", &evalFail{"silent-partial-result:divergent" + tag, fmt.Sprintf("limit %d, store %s: evaluation of the unguarded chain returned nil after creating %d facts", c.Limit, c.Kind, cs.adds)}
+		}
+		for n := 0; n <= l.Chain; n++ {
+			if !cs.Contains(ast.NewAtom("level", ast.Number(0), ast.Number(int64(-n)))) {
+				return "", &evalFail{"silent-partial-result" + tag, fmt.Sprintf("limit %d, store %s: evaluation returned nil but level(0,%d) is missing", c.Limit, c.Kind, -n)}
+			}
+		}
 		return "", nil
 	}
 	if l.Chain == 0 {
